@@ -16,13 +16,14 @@ case "$PKG" in
   value_test|value) D=value;; export_test|export) D=value/export;; parser2_test|parser2) D=.;; funcGen_test|funcGen) D=funcGen;; listMap_test) D=listMap;; example_test|example) D=example;; *) D=value;;
 esac
 if [ -n "${3:-}" ]; then D=$3; fi
+TESTS=$(grep -o -E '^func (Test[A-Za-z0-9_]+)' $M/demo_test.go | awk '{print $2}' | paste -sd'|')
 git apply $M/patch.diff || { echo "CONFIRM $PROP $M: patch does not apply"; exit 1; }
 go build ./... || { echo "CONFIRM $PROP $M: does not build"; exit 1; }
 if ! go test -vet=off -count=1 ./... >/tmp/confirm-suite.log 2>&1; then echo "CONFIRM $PROP $M: suite FAILS with the change"; tail -5 /tmp/confirm-suite.log; exit 1; fi
 cp $M/demo_test.go $D/zz_demo_test.go
-if timeout 300 go test -vet=off -count=1 -run . ./$D/ >/tmp/confirm-with.log 2>&1; then echo "CONFIRM $PROP $M: demo PASSES with the change (bad)"; exit 1; fi
+if timeout 600 go test ${RACE:+-race} -vet=off -count=1 -run "^($TESTS)\$" ./$D/ >/tmp/confirm-with.log 2>&1; then echo "CONFIRM $PROP $M: demo PASSES with the change (bad)"; exit 1; fi
 rm $D/zz_demo_test.go
 git checkout -q -- .
 cp $M/demo_test.go $D/zz_demo_test.go
-if ! timeout 300 go test -vet=off -count=1 -run . ./$D/ >/tmp/confirm-without.log 2>&1; then echo "CONFIRM $PROP $M: demo FAILS without the change (bad)"; tail -5 /tmp/confirm-without.log; exit 1; fi
+if ! timeout 600 go test ${RACE:+-race} -vet=off -count=1 -run "^($TESTS)\$" ./$D/ >/tmp/confirm-without.log 2>&1; then echo "CONFIRM $PROP $M: demo FAILS without the change (bad)"; tail -5 /tmp/confirm-without.log; exit 1; fi
 echo "CONFIRM $PROP $M: OK (applies, builds, suite passes, demo fails with / passes without; demo dir $D)"
